@@ -62,6 +62,6 @@ def run(ctx):
         "with equal timestamps a cleared and re-created collection reuses its generation under wait_compact (reported separately)",
         "expiry commands are generated (durations of a few seconds, ~63 years, or invalid); reads use the wall clock, writes the raft timestamp; the local_deletion background sweep is not started (property C10)",
         "keys are well-formed table:key with non-empty table and key (malformed keys only in the failing-input search)",
-        "scores are integer-valued doubles or infinities (-0 printed as 0); collections of the random sequences are small, the big-collection class "
+        "scores are integer-valued doubles of any magnitude (up to +-1e19) or infinities (-0 printed as 0); collections of the random sequences are small, the big-collection class "
         "(4999 / 5000 / 5001 elements, removed and re-created) runs on mem, pebble and rocksdb; tables have no hash index",
     ])
